@@ -1,7 +1,7 @@
 (* Props/C02.v — Well-formed FTL parses to exactly the tree the grammar assigns.
    Only statements here; proofs are in Syntax/ParseLemmas.v and Syntax/RoundTrip.v.
    The grammar is Syntax/Render.v: `render cs t` prints the tree t with the layout choices cs, and
-   `wf_resource t` says that t is well-formed.
+   `wf_resource t` says that t is well-formed (together with WfUtf8.wf_utf8_resource: its strings are UTF-8).
 
    STATED ONLY (a Definition, Prop-valued):
      C02_roundtrip_statement      parse (render cs t) gives t back (after joining adjacent text elements),
@@ -14,34 +14,38 @@
      C02_simple_is_wellformed     the fragment lies inside wf_resource
      C02_layout_independent_simple_partial   the parsed tree does not depend on the layout
    The fragment (RoundTrip.simple_resource): every entry is
-     * a stand-alone comment of any of the three levels (#, ##, ###): at least one line; no CR LF in a line;
-       the first byte of a line is not a UTF-8 continuation byte; a line is empty or contains a byte other
-       than a space; the LAST line is not empty (D7); or
-     * a message or a term without attached comment; its value and the value of each of its attributes is a
-       ONE-LINE pattern: a non-empty sequence of text elements (not empty, no '{' '}' CR LF, first byte not a
-       UTF-8 continuation byte, no two in a row) and placeables whose expression is a variable reference, a
-       message reference with or without attribute, a term reference without attribute and arguments, a
-       number literal or a string literal (any escapes); no space at the start and at the end of the line;
-       a message may have no value if it has attributes; identifiers, numbers and strings well-formed.
+     * a stand-alone comment of any of the three levels (#, ##, ###), or
+     * a message or a term, with or without an attached comment; its value and the value of each of its
+       attributes is a ONE-LINE pattern: a non-empty sequence of text elements (not empty, no '{' '}' CR LF,
+       first byte not a UTF-8 continuation byte, no two in a row) and placeables whose expression is a
+       variable reference, a message reference with or without attribute, a term reference without attribute
+       and arguments, a number literal or a string literal (any escapes); no space at the start and at the
+       end of the line; a message may have no value if it has attributes; identifiers, numbers and strings
+       well-formed.
+     A comment (attached or stand-alone) has at least one line; no CR LF in a line; the first byte of a line
+     is not a UTF-8 continuation byte; lines may be empty or consist of spaces only, except the LAST line,
+     which contains a byte other than a space (D7).
    All layouts render can choose for such trees are covered: 0-2 spaces before and after '=', inline or
    block start of each value (with an optional blank line and any indentation), blanks (spaces and line
    breaks) inside the braces of a placeable, attribute lines indented by 1-3 spaces, 0-2 blank lines at the
-   start, the blank lines the grammar requires after a comment (so that it neither attaches to the next
-   message nor merges with the next comment) plus 0-2 more between any two entries, 0-2 spaces on blank
+   start, no blank line between an attached comment and its entry, the blank lines the grammar
+   requires after a stand-alone comment (so that it neither attaches to the next message nor merges with the
+   next comment) plus 0-2 more between any two entries, 0-2 spaces on blank
    lines, LF or CRLF at every line end, final line end absent / present / followed by a blank line.
    (The proof covers more: any number of spaces and blank lines, any blank inside braces.)
-   EXCLUDED from the fragment: comments attached to a message or term, comments whose last line is empty or
-   that have a whitespace-only non-empty line, multi-line text, select expressions, function references and
-   call arguments, term attributes, nested placeables, Junk.
+   EXCLUDED from the fragment: comments whose last line is empty or whitespace-only, multi-line text, select
+   expressions, function references and call arguments, term attributes, nested placeables, Junk.
    Examples (vm_compute) for trees outside the fragment: C02_example_xxx.                            *)
 From FluentV Require Import Base.Bytes Base.Outcome Base.Utf8 Syntax.Ast.
-From FluentV Require Import Syntax.ParserModel Syntax.Render Syntax.TreeNorm Syntax.RoundTrip.
+From FluentV Require Import Syntax.ParserModel Syntax.Render Syntax.TreeNorm Syntax.WfUtf8 Syntax.RoundTrip.
 
 (* "Every resource that is well-formed under the Fluent 1.0 grammar parses without errors or Junk and
    yields exactly the entries the grammar assigns to it ...  The tree does not depend on layout choices
-   the grammar declares insignificant."   (The parser takes a Rust str, hence the UTF-8 premise.) *)
+   the grammar declares insignificant."
+   Well-formed: Render.wf_resource, and every string of the tree is valid UTF-8 (WfUtf8.wf_utf8_resource: the
+   parser takes a Rust str, and `render` only adds ASCII bytes between the strings of the tree). *)
 Definition C02_roundtrip_statement : Prop :=
-  forall cs t, wf_resource t = true -> utf8_valid (render cs t) = true ->
+  forall cs t, wf_resource t = true -> wf_utf8_resource t = true ->
   exists t', parse (render cs t) = Done (t', []) /\ map join_entry t' = t.
 
 (* the same statement for the trees of the fragment (no UTF-8 premise needed there) *)
@@ -83,7 +87,7 @@ Definition ex_simple : resource :=
   [ResourceComment (Comment [b "Resource"; []; b "comment"]);
    GroupComment (Comment [b "a group"]);
    GroupComment (Comment [b "another group"]);
-   CommentEntry (Comment [b "free, not attached"]);
+   CommentEntry (Comment [b "free, not attached"; b "   "; []; b "still free"]);
    Message (b "hello")
            (Some (Pattern [TextElement (b "Hello, "); PlaceableElement (Inline (VariableReference (b "user")));
                            TextElement (b "! You have "); PlaceableElement (Inline (NumberLiteral (b "-3.5")));
@@ -92,7 +96,7 @@ Definition ex_simple : resource :=
                            PlaceableElement (Inline (StringLiteral (b "\u00e9{")))]))
            [Attribute (b "title") (Pattern [TextElement (b "*Hi*")]);
             Attribute (b "x-y") (Pattern [PlaceableElement (Inline (MessageReference (b "dot") None)); TextElement (b " .dot")])] None;
-   Message (b "only-attrs") None [Attribute (b "a") (Pattern [TextElement (b "b")])] None;
+   Message (b "only-attrs") None [Attribute (b "a") (Pattern [TextElement (b "b")])] (Some (Comment [b "attached"; b "comment"]));
    Term (b "brand") (Pattern [TextElement (b "[Fluent]")]) [] None;
    CommentEntry (Comment [b "the end"])].
 Example C02_example_simple_in_fragment : simple_resource ex_simple = true.
